@@ -256,5 +256,26 @@ def run(ctx):
                             f'{cn.rsplit("::",1)[1]} succeeded and before the user-index maintenance',
                             f'{f.file}:{line}')
 
+    # ---------------------------------------------------------------- R6 key pipeline agreement of the maintenance sites
+    ctx.rule('C15.R6', 'every closure/function of the user-index maintenance code that builds an index key from row values applies both '
+             'apply_prefix_truncation and normalize_for_comparison (the sibling key-building sites must agree, else one path stores keys '
+             'another path cannot find or remove)')
+    TRUNC = 'vibesql_storage::database::indexes::index_maintenance::apply_prefix_truncation'
+    NORM = 'vibesql_storage::database::indexes::value_normalization::normalize_for_comparison'
+    n6 = 0
+    for f in prog.fns.values():
+        if not (f.nice.startswith('vibesql_storage::database::indexes::index_maintenance::') or
+                f.nice.startswith('vibesql_storage::database::indexes::index_manager::IndexManager::check_unique_constraints_for_insert')):
+            continue
+        names = {callee_name(t) for _, t in f.calls()}
+        if TRUNC in names or NORM in names:
+            n6 += 1
+            key = f.nice.replace('{closure#', '{closure-').split('{closure-')[0].rstrip(':')
+            ctx.instance(f'R6/{f.nice}', {'rule': 'C15.R6', 'site': f.nice, 'loc': f.loc, 'truncates': TRUNC in names, 'normalises': NORM in names})
+            if not (TRUNC in names and NORM in names):
+                miss = 'apply_prefix_truncation' if TRUNC not in names else 'normalize_for_comparison'
+                ctx.finding(f'R6/{key}/missing-{miss}', f'{f.nice} builds an index key without {miss} while its sibling sites apply it', f.loc)
+    ctx.floor('C15.R6 index key-building sites', n6, 9)
+
     ctx.assumptions.append('a `for` loop entered after the mutation iterates at least once (collect-then-apply idiom)')
     ctx.assumptions.append('the maintenance calls compute correct keys and positions (value-level; not decided)')
